@@ -70,6 +70,7 @@ const STAGES: &[(&str, StageFn)] = &[
     ("c08.cli", c08::cli),
     ("c08.big", c08::big),
     ("c08.manyrecs", c08::manyrecs),
+    ("c08.bigtable", c08::bigtable),
     ("c08.exact_multiples", c08::exact_multiples),
     ("c09.exhaustive", c09::exhaustive),
     ("c09.random", c09::random),
